@@ -35,7 +35,18 @@ The obligations are stated on effects and path classes, not on the recursive spe
     representative element (MAY facts: R1b, R2); R3 is derived on the plain values from "the list is empty at the
     success site, every pop is followed by a checked removal" and from alternatives of a helper's outcome that agree;
   * listings opened by a private helper and paths taken out of values built by private helpers are read through
-    their normal forms (inline_deep / mk_unwrap).
+    their normal forms (inline_deep / mk_unwrap);
+  * "plan, then execute": a list that is built (push / extend / push inside a `for` over a literal table) and then only
+    read is the equivalent iterator expression once(a).chain(xs.map(f)) (H.built_lists, seeded into the slicer), and a
+    loop over what a private helper returns is a loop over that helper's list (H.EffectsC) — R2 / R3 / R5 see the same
+    per-element effects as for the loop written in place; a conditional build step only contributes MAY elements;
+  * MUST effects are context-sensitive like MAY effects (H.EffectsC): `executor(Plan::Recreate(..))` has the MUST effects
+    of the executor's Recreate arm; a recreate decision that is re-encoded as data — by a match producing a private enum,
+    by a closure handed to Result::map, by a private helper fn — is followed to where the data is consumed: the decision
+    is located at the call that runs the re-encoder, calls that are handed the table are judged with the row of the
+    decision variant, switches on the table are decision switches (H.recreate_decisions);
+  * `p = base.to_path_buf(); p.push(name)` is `base.join(name)` — only when the appended-to local is a PathBuf
+    (OsString::push / String::push_str add no separator) (H.path_pushes_as_join).
 """
 from .lib.effects import Effects, MUTATING, guards_of, vocab_lookup
 from .lib.guards import conditions, conditions_ctx
@@ -127,7 +138,20 @@ def unlink_guarded(prog, sl, E, e):
 
 
 def run(ctx, rep):
-    prog, sl0 = ctx.prog, ctx.slicer
+    # lists that are built and then only read ("plan, then execute") are read as the equivalent iterator expression
+    from .lib import paths as _paths
+    seeds = H.built_lists(ctx.prog, ctx.slicer)
+    sl0 = H.seeded_slicer(ctx.prog, seeds, base=ctx.slicer)
+    saved = _paths.SLICER
+    if seeds and saved is not None:
+        _paths.SLICER = sl0
+    try:
+        _run(ctx.prog, sl0, seeds, rep)
+    finally:
+        _paths.SLICER = saved
+
+
+def _run(prog, sl0, seeds, rep):
     rep.rule('R1', 'symlink-following operations on a received path are preceded by a no-follow type test (in the function or at every call site)')
     rep.rule('R1b', 'recursion into children only under the entry\'s own no-follow is_dir(); other entries are unlinked')
     rep.rule('R2', 'mutating effects of the remover stay on its argument / listed entries; delete_layer stays inside the layer')
@@ -147,8 +171,8 @@ def run(ctx, rep):
     # an iterative remover keeps the directories being emptied in a work list instead of call frames: reads of a list
     # whose invariant "every element is inside the tree of the argument" is proved get a representative element (sl);
     # MUST facts are derived on the plain values (EM: drained lists, alternatives that agree)
-    wls, sl = H.abstract_worklists(prog, sl0, lib)
-    E = Effects(prog, sl)
+    wls, sl = H.abstract_worklists(prog, sl0, lib, seeds)
+    E = H.EffectsC(prog, sl)
     EM = H.EffectsX(prog, sl0, wls) if wls else E
     callers = prog.callers()
     n_follow = 0
